@@ -5,27 +5,20 @@ Open Scope list_scope.
 
 (* ---- generation time ---- *)
 
-(* The code accepts a method-settings list exactly when selectors are pairwise distinct and every entry names an
-   existing method and, if it lists auto-populated fields, a unary method whose request message is one of the API's
-   own and has each listed name as a top-level field that is string-typed, not REQUIRED and annotated UUID4.
-   (String-typed: the scalar type; the label is not examined — see the _refuted statement.) *)
-Theorem C18_validation_iff : forall methods settings,
-  methods_wf methods -> (enforce methods settings = Accepted <-> code_valid methods settings).
-Proof. exact validation_iff_code. Qed.
-Print Assumptions C18_validation_iff.
-
-(* When no UUID4-annotated string field is repeated, that is exactly the property's sentence. *)
+(* The property's sentence, unconditionally: a method-settings list is accepted exactly when selectors are pairwise
+   distinct and every entry names an existing method and, if it lists auto-populated fields, a unary method whose
+   request message is one of the API's own and has each listed name as a top-level field that is a singular string,
+   not REQUIRED and annotated UUID4. *)
 Theorem C18_validation_iff_spec : forall methods settings,
-  methods_wf methods -> no_repeated_uuid_strings methods ->
-  (enforce methods settings = Accepted <-> spec_valid methods settings).
+  methods_wf methods -> (enforce methods settings = Accepted <-> spec_valid methods settings).
 Proof. exact validation_iff_spec. Qed.
 Print Assumptions C18_validation_iff_spec.
 
-(* ... and it is not the property's sentence in general: a repeated string field is accepted *)
-Theorem C18_validation_spec_refuted_repeated_string :
-  exists methods settings, methods_wf methods /\ enforce methods settings = Accepted /\ ~ spec_valid methods settings.
-Proof. exact validation_spec_refuted_repeated_string. Qed.
-Print Assumptions C18_validation_spec_refuted_repeated_string.
+(* the former witness of the repeated-string gap is rejected *)
+Example C18_former_gap_closed :
+  enforce rep_methods rep_settings = Rejected [("pkg.Lib.CreateBook", SFields [("request_ids", FNotString)])].
+Proof. exact former_gap_closed. Qed.
+Print Assumptions C18_former_gap_closed.
 
 (* an entry with any single violation (unknown method; streaming method; a listed field that is missing, nested,
    not a string, REQUIRED or not UUID4) makes generation fail, wherever it stands in the list, and the error
@@ -52,13 +45,6 @@ Example C18_validation_nontrivial :
     = Some [mkBlock (GNotTruthy "request_id") "request_id"; mkBlock (GNotIn "opt_id") "opt_id"].
 Proof. exact ex_accepted. Qed.
 Print Assumptions C18_validation_nontrivial.
-
-Example C18_validation_spec_nontrivial :
-  methods_wf ex_methods_singular /\ no_repeated_uuid_strings ex_methods_singular /\
-  enforce ex_methods_singular ex_settings = Accepted /\
-  enforce ex_methods_singular [mkSetting "pkg.Lib.CreateBook" ["note"]] = Rejected [("pkg.Lib.CreateBook", SFields [("note", FNotUuid4)])].
-Proof. exact ex_singular. Qed.
-Print Assumptions C18_validation_spec_nontrivial.
 
 Example C18_violations_nontrivial :
   violates ex_methods (mkSetting "pkg.Lib.Missing" []) /\
@@ -119,14 +105,14 @@ Theorem C18_paths_agree : forall m settings, client_blocks true m settings = cli
 Proof. exact paths_agree. Qed.
 Print Assumptions C18_paths_agree.
 
-(* the call-time face of the gap: on an accepted repeated field the characters of the uuid are sent *)
-Theorem C18_populate_refuted_repeated_string :
-  exists fs names bs u st st' f,
-    emit_fields fs names = Some bs /\ find_field "request_ids" fs = Some f /\ left_unset_or_empty f st = true /\
-    exec fs bs [u] st = Some (st', []) /\
-    assoc "request_ids" st' = Some (VList (chars u)) /\ assoc "request_ids" st' <> Some (VStr u).
-Proof. exact populate_refuted_repeated_string. Qed.
-Print Assumptions C18_populate_refuted_repeated_string.
+(* after acceptance every listed field is a singular string, not REQUIRED, UUID4: the hypothesis [rf_repeated f = false]
+   of C18_populate_iff_unset_or_empty is met by every accepted entry *)
+Theorem C18_accepted_fields_singular : forall methods settings s m fs n f,
+  methods_wf methods -> enforce methods settings = Accepted -> In s settings -> In m methods ->
+  m_selector m = s_selector s -> m_input m = Some fs -> In n (s_fields s) -> find_field n fs = Some f ->
+  rf_repeated f = false /\ rf_string f = true /\ rf_required f = false /\ rf_uuid4 f = true.
+Proof. exact accepted_fields_singular. Qed.
+Print Assumptions C18_accepted_fields_singular.
 
 Example C18_population_hypotheses_nontrivial :
   Forall (fun u : string => u <> "") ["u1"; "u2"] /\
